@@ -17,6 +17,8 @@ MODES = {
     "wfcq": (["wfcq", "wfcq_nl"], [[]]),
     "lfq": (["lfq_memb", "lfq_mb"], [[]]),
     "defer": (["defer_conc_memb", "defer_conc_mb"], [[]]),
+    # proof-only parts (the futex wait / wake families; their events are inside calls replayed by other modes)
+    "futex-gp": ([], [[]]), "futex-callrcu": ([], [[]]), "futex-defer": ([], [[]]), "futex-wq": ([], [[]]),
 }
 
 # refinement theorems per mode: filled from the builders' reports; (modules, theorem names)
@@ -24,6 +26,10 @@ THEOREMS = {
     "gp-memb": (["UrcuVerif.Props.SrcRead", "UrcuVerif.Props.SrcSync"], ["UrcuVerif.Props.SrcSync.urcu_common_reader_state_refines", "UrcuVerif.Props.SrcSync.memb_smp_mb_master_refines", "UrcuVerif.Props.SrcSync.memb_wait_gp_refines", "UrcuVerif.Props.SrcSync.memb_wait_for_readers_refines", "UrcuVerif.Props.SrcSync.memb_synchronize_rcu_refines", "UrcuVerif.Props.SrcSync.memb_grace_period_refines", "UrcuVerif.Props.SrcSync.first_disc", "UrcuVerif.Props.SrcSync.succOf_mem", "UrcuVerif.Props.SrcSync.succOf_disc", "UrcuVerif.Props.SrcSync.proj_enabled", "UrcuVerif.Props.SrcSync.proj_step", "UrcuVerif.Props.SrcSync.proj_frame", "UrcuVerif.Props.SrcRead._urcu_memb_read_lock_refines", "UrcuVerif.Props.SrcRead._urcu_memb_read_unlock_refines", "UrcuVerif.Props.SrcRead._urcu_memb_read_ongoing_refines", "UrcuVerif.Props.SrcRead._urcu_memb_read_lock_in_handler_refines", "UrcuVerif.Props.SrcRead._urcu_memb_read_unlock_in_handler_refines", "UrcuVerif.Props.SrcRead.urcu_common_wake_up_gp_shape", "UrcuVerif.Props.SrcRead.flip_proj_step", "UrcuVerif.Props.SrcRead.flip_proj_enabled", "UrcuVerif.Props.SrcRead.flip_proj_frame", "UrcuVerif.Props.SrcRead.handshake_proj_step", "UrcuVerif.Props.SrcRead.handshake_proj_enabled", "UrcuVerif.Props.SrcRead.handshake_proj_frame"]),
     "gp-mb": (["UrcuVerif.Props.SrcRead", "UrcuVerif.Props.SrcSync"], ["UrcuVerif.Props.SrcSync.urcu_common_reader_state_refines", "UrcuVerif.Props.SrcSync.mb_smp_mb_master_refines", "UrcuVerif.Props.SrcSync.mb_wait_gp_refines", "UrcuVerif.Props.SrcSync.mb_wait_for_readers_refines", "UrcuVerif.Props.SrcSync.mb_synchronize_rcu_refines", "UrcuVerif.Props.SrcSync.first_disc", "UrcuVerif.Props.SrcSync.succOf_mem", "UrcuVerif.Props.SrcSync.succOf_disc", "UrcuVerif.Props.SrcSync.proj_enabled", "UrcuVerif.Props.SrcSync.proj_step", "UrcuVerif.Props.SrcSync.proj_frame", "UrcuVerif.Props.SrcRead._urcu_mb_read_lock_refines", "UrcuVerif.Props.SrcRead._urcu_mb_read_unlock_refines", "UrcuVerif.Props.SrcRead._urcu_mb_read_ongoing_refines", "UrcuVerif.Props.SrcRead._urcu_mb_read_lock_in_handler_refines", "UrcuVerif.Props.SrcRead._urcu_mb_read_unlock_in_handler_refines", "UrcuVerif.Props.SrcRead.urcu_common_wake_up_gp_shape", "UrcuVerif.Props.SrcRead.flip_proj_step", "UrcuVerif.Props.SrcRead.flip_proj_enabled", "UrcuVerif.Props.SrcRead.flip_proj_frame", "UrcuVerif.Props.SrcRead.handshake_proj_step", "UrcuVerif.Props.SrcRead.handshake_proj_enabled", "UrcuVerif.Props.SrcRead.handshake_proj_frame"]),
     "gp-bp": (["UrcuVerif.Props.SrcRead"], ["UrcuVerif.Props.SrcRead._urcu_bp_read_lock_refines", "UrcuVerif.Props.SrcRead._urcu_bp_read_unlock_refines", "UrcuVerif.Props.SrcRead._urcu_bp_read_ongoing_refines", "UrcuVerif.Props.SrcRead._urcu_bp_read_lock_unregistered", "UrcuVerif.Props.SrcRead._urcu_bp_read_lock_in_handler_refines", "UrcuVerif.Props.SrcRead._urcu_bp_read_unlock_in_handler_refines", "UrcuVerif.Props.SrcRead.urcu_common_wake_up_gp_shape", "UrcuVerif.Props.SrcRead.flip_proj_step", "UrcuVerif.Props.SrcRead.flip_proj_enabled", "UrcuVerif.Props.SrcRead.flip_proj_frame", "UrcuVerif.Props.SrcRead.handshake_proj_step", "UrcuVerif.Props.SrcRead.handshake_proj_enabled", "UrcuVerif.Props.SrcRead.handshake_proj_frame"]),
+    "futex-gp": (["UrcuVerif.Props.SrcFutex"], ["UrcuVerif.Props.SrcFutex.memb_wait_gp_refines", "UrcuVerif.Props.SrcFutex.mb_wait_gp_refines", "UrcuVerif.Props.SrcFutex.qsbr_wait_gp_refines", "UrcuVerif.Props.SrcFutex.urcu_common_wake_up_gp_refines", "UrcuVerif.Props.SrcFutex.urcu_qsbr_wake_up_gp_refines", "UrcuVerif.Props.SrcFutex.hs_waiter_proj_step", "UrcuVerif.Props.SrcFutex.hs_waiter_proj_enabled", "UrcuVerif.Props.SrcFutex.hs_waiter_proj_frame", "UrcuVerif.Props.SrcFutex.hs_waiter_env_wake", "UrcuVerif.Props.SrcFutex.qs_waiter_proj_step", "UrcuVerif.Props.SrcFutex.qs_waiter_proj_enabled", "UrcuVerif.Props.SrcFutex.qs_waiter_proj_frame", "UrcuVerif.Props.SrcFutex.qs_waiter_env_wake", "UrcuVerif.Props.SrcFutex.qs_waker_proj_step", "UrcuVerif.Props.SrcFutex.qs_waker_proj_enabled", "UrcuVerif.Props.SrcFutex.qs_waker_proj_frame"]),
+    "futex-callrcu": (["UrcuVerif.Props.SrcFutex"], ["UrcuVerif.Props.SrcFutex.call_rcu_wait_refines", "UrcuVerif.Props.SrcFutex.call_rcu_wake_up_refines", "UrcuVerif.Props.SrcFutex.wake_call_rcu_thread_refines", "UrcuVerif.Props.SrcFutex.call_rcu_completion_wait_refines", "UrcuVerif.Props.SrcFutex.call_rcu_completion_wake_up_refines", "UrcuVerif.Props.SrcFutex.cr_waiter_proj_step", "UrcuVerif.Props.SrcFutex.cr_waiter_proj_enabled", "UrcuVerif.Props.SrcFutex.cr_waiter_proj_frame", "UrcuVerif.Props.SrcFutex.cr_waiter_env_wake", "UrcuVerif.Props.SrcFutex.cr_waker_proj_step", "UrcuVerif.Props.SrcFutex.cr_waker_proj_enabled", "UrcuVerif.Props.SrcFutex.cr_waker_proj_frame"]),
+    "futex-defer": (["UrcuVerif.Props.SrcFutex"], ["UrcuVerif.Props.SrcFutex.wake_up_defer_refines", "UrcuVerif.Props.SrcFutex.df_waiter_proj_step", "UrcuVerif.Props.SrcFutex.df_waiter_proj_enabled", "UrcuVerif.Props.SrcFutex.df_waiter_proj_frame", "UrcuVerif.Props.SrcFutex.df_waiter_env_wake", "UrcuVerif.Props.SrcFutex.df_waker_proj_step", "UrcuVerif.Props.SrcFutex.df_waker_proj_enabled", "UrcuVerif.Props.SrcFutex.df_waker_proj_frame"]),
+    "futex-wq": (["UrcuVerif.Props.SrcFutex"], ["UrcuVerif.Props.SrcFutex.futex_wait_refines", "UrcuVerif.Props.SrcFutex.futex_wake_up_refines", "UrcuVerif.Props.SrcFutex.wake_worker_thread_refines"]),
     "defer": (["UrcuVerif.Props.SrcDefer"], ["UrcuVerif.Props.SrcDefer._defer_rcu_refines", "UrcuVerif.Props.SrcDefer._defer_rcu_stores", "UrcuVerif.Props.SrcDefer._defer_rcu_blocked", "UrcuVerif.Props.SrcDefer.wake_up_defer_refines", "UrcuVerif.Props.SrcDefer.rcu_defer_barrier_queue_refines", "UrcuVerif.Props.SrcDefer.rcu_defer_barrier_queue_events", "UrcuVerif.Props.SrcDefer.defer_roundtrip_inv", "UrcuVerif.Props.SrcDefer.defer_roundtrip_encode", "UrcuVerif.Props.SrcDefer.defer_roundtrip_one", "UrcuVerif.Props.SrcDefer._defer_rcu_refines_local", "UrcuVerif.Props.SrcDefer.rcu_defer_barrier_queue_refines_local", "UrcuVerif.Props.SrcDefer.enc_ex", "UrcuVerif.Props.SrcDefer.owner_proj", "UrcuVerif.Props.SrcDefer.owner_enabled_iff", "UrcuVerif.Props.SrcDefer.owner_frame", "UrcuVerif.Props.SrcDefer.owner_frame_unlock", "UrcuVerif.Props.SrcDefer.runner_proj", "UrcuVerif.Props.SrcDefer.runner_enabled_iff", "UrcuVerif.Props.SrcDefer.runner_frame"]),
     "wfs": (["UrcuVerif.Props.SrcStack"], ["UrcuVerif.Props.SrcStack.wfs_proj_step", "UrcuVerif.Props.SrcStack.wfs_lift_step", "UrcuVerif.Props.SrcStack.wfs_enabled_iff", "UrcuVerif.Props.SrcStack.wfs_proj_run", "UrcuVerif.Props.SrcStack.wfs_frame", "UrcuVerif.Props.SrcStack.wfs_frame_own", "UrcuVerif.Props.SrcStack.wfs_frame_iterNext", "UrcuVerif.Props.SrcStack._cds_wfs_push_refines", "UrcuVerif.Props.SrcStack.___cds_wfs_node_sync_next_refines", "UrcuVerif.Props.SrcStack.___cds_wfs_pop_refines", "UrcuVerif.Props.SrcStack.___cds_wfs_pop_refines_total", "UrcuVerif.Props.SrcStack.___cds_wfs_pop_all_refines", "UrcuVerif.Props.SrcStack._cds_wfs_empty_refines"]),
     "lfs": (["UrcuVerif.Props.SrcStack"], ["UrcuVerif.Props.SrcStack.lfs_proj_step", "UrcuVerif.Props.SrcStack.lfs_lift_step", "UrcuVerif.Props.SrcStack.lfs_enabled_iff", "UrcuVerif.Props.SrcStack.lfs_proj_run", "UrcuVerif.Props.SrcStack.lfs_frame", "UrcuVerif.Props.SrcStack.lfs_frame_own", "UrcuVerif.Props.SrcStack.lfs_frame_iterNext", "UrcuVerif.Props.SrcStack._cds_lfs_push_refines", "UrcuVerif.Props.SrcStack.___cds_lfs_pop_refines", "UrcuVerif.Props.SrcStack.___cds_lfs_pop_all_refines", "UrcuVerif.Props.SrcStack._cds_lfs_empty_refines"]),
